@@ -707,7 +707,13 @@ func (g *gen) observeSchema(i int) {
 func Generate(r *rand.Rand, withKnown bool) *History {
 	g := &gen{r: r, h: &History{}, withKnown: withKnown, pending: map[int][]Op{}, added: map[int]bool{}, spent: map[int]bool{},
 		advanced: map[int]bool{}, checked: map[int]bool{}, lened: map[int]bool{}}
+	// a history draws its roots either from the base pool (constructs: rules,
+	// enums, allOf, or, key shortcuts, recursion, broken texts) or from the
+	// whole pool incl. the root-kind extension, so that neither thins the other
 	roots := AllRoots()
+	if r.Intn(2) == 0 {
+		roots = Roots()
+	}
 	nRoots := []int{1, 1, 1, 2, 2, 2, 2, 3, 3}[r.Intn(9)]
 	var rootObjs []int
 	for len(rootObjs) < nRoots {
